@@ -1308,7 +1308,11 @@ _dbus_header_set_field_basic (DBusHeader       *header,
         _dbus_assert_not_reached ("field was marked present in cache but wasn't found");
 
       if (!set_basic_field (&reader, field, type, value, &realign_root))
-        return FALSE;
+        {
+          /* undo reserve_header_padding(): the header must stay valid */
+          correct_header_padding (header);
+          return FALSE;
+        }
     }
   else
     {
@@ -1337,7 +1341,11 @@ _dbus_header_set_field_basic (DBusHeader       *header,
 
       if (!write_basic_field (&array,
                               field, type, value))
-        return FALSE;
+        {
+          /* undo reserve_header_padding(): the header must stay valid */
+          correct_header_padding (header);
+          return FALSE;
+        }
 
       if (!_dbus_type_writer_unrecurse (&writer, &array))
         _dbus_assert_not_reached ("unrecurse from ARRAY should not have used memory");
@@ -1451,7 +1459,11 @@ _dbus_header_delete_field (DBusHeader *header,
 
   if (!_dbus_type_reader_delete (&reader,
                                  &realign_root))
-    return FALSE;
+    {
+      /* undo reserve_header_padding(): the header must stay valid */
+      correct_header_padding (header);
+      return FALSE;
+    }
 
   correct_header_padding (header);
 
@@ -1565,7 +1577,11 @@ _dbus_header_remove_unknown_fields (DBusHeader *header)
             return FALSE;
 
           if (!_dbus_type_reader_delete (&array, &fields_reader))
-            return FALSE;
+            {
+              /* undo reserve_header_padding(): the header must stay valid */
+              correct_header_padding (header);
+              return FALSE;
+            }
 
           correct_header_padding (header);
           _dbus_header_cache_invalidate_all (header);
